@@ -202,6 +202,35 @@ c("c20a_end_counts_seen", ["C20.a"], "stream_end announces a different counter t
     "        self.renderer\n            .stream_end(self.emitted + self.skipped, &mut self.encode_buf);")])
 
 
+# ---- behaviour-preserving edits: no check may fire on these -----------------------------------------------------
+c("benign_rename_locals", [], "locals renamed (mask, millis, failure_count, valid_row_indices, retired_set, flushed_mem)",
+  [("src/engine/core/filter/condition_evaluator.rs", "mask", "keep_row"),
+   ("src/engine/core/event/event_id.rs", "millis", "now_ms"),
+   ("src/engine/core/wal/wal_cleaner.rs", "failure_count", "failed"),
+   ("src/command/handlers/query/streaming/response_writer.rs", "valid_row_indices", "accepted"),
+   ("src/engine/core/compaction/handover.rs", "retired_set", "gone"),
+   ("src/engine/store/insert.rs", "flushed_mem", "rotated"),
+   ("src/engine/core/read/sequence/matcher.rs", "row_a", "head_row"),
+   ("src/engine/core/read/sequence/matcher.rs", "zones_a", "head_zones")], )
+c("benign_more_logging", [], "extra tracing statements at the anchor sites",
+  [("src/engine/core/write/flush_worker.rs", "                        let cleaner = WalCleaner::new(shard_id);",
+    "                        debug!(target: \"sneldb::flush\", shard_id, segment_id, \"about to prune the WAL\");\n                        let cleaner = WalCleaner::new(shard_id);"),
+   ("src/engine/core/compaction/handover.rs", "            index.save(&self.shard_dir).await?;",
+    "            debug!(target: \"compaction_handover::commit_batch\", shard = self.shard_id, \"saving index\");\n            index.save(&self.shard_dir).await?;"),
+   ("src/engine/store/insert.rs", "    ctx.memtable.insert(event)?;", "    trace!(target: \"sneldb::store\", \"inserting\");\n    ctx.memtable.insert(event)?;"),
+   ("src/engine/shard/manager.rs", "        let mut hasher = DefaultHasher::new();", "        tracing::trace!(target: \"shard::manager\", context_id, \"routing\");\n        let mut hasher = DefaultHasher::new();")])
+c("benign_reorder_and_flip", [], "independent statements reordered; comparisons written the other way round",
+  [("src/engine/store/insert.rs", "        let current_segment_id = ctx.allocator.next_for_level(0) as u64;\n\n        let capacity = ctx.memtable.capacity();",
+    "        let capacity = ctx.memtable.capacity();\n\n        let current_segment_id = ctx.allocator.next_for_level(0) as u64;"),
+   ("src/engine/core/wal/wal_cleaner.rs", "                            if id < keep_from_log_id {", "                            if keep_from_log_id > id {"),
+   ("src/engine/core/read/sequence/matcher.rs", "            if ts_b >= ts_a {\n                timestamp_passed += 1;", "            if ts_a <= ts_b {\n                timestamp_passed += 1;"),
+   ("src/engine/core/event/event_id.rs", "        if millis < self.last_millis {", "        if self.last_millis > millis {"),
+   ("src/engine/core/zone/selector/pruner/temporal_pruner.rs", "                            CompareOp::Gt => zti.max_ts > ts as i64,", "                            CompareOp::Gt => (ts as i64) < zti.max_ts,")])
+c("benign_extract_helper", [], "the verified-publication step of the flush task is restructured with an early continue-style guard",
+  [("src/engine/core/write/flush_worker.rs", "                            if !segs.contains(&segment_name) {\n                                segs.push(segment_name.clone());",
+    "                            let already = segs.contains(&segment_name);\n                            if !already {\n                                segs.push(segment_name.clone());")])
+
+
 def make(only=None):
     os.makedirs("/verif/mutants", exist_ok=True)
     for name, expect, what, edits in C:
@@ -216,7 +245,8 @@ def make(only=None):
                 print("!! %s: anchor text not found in %s" % (name, f))
                 ok = False
                 break
-            open(p, "w").write(s.replace(old, new, 1))
+            import re as _re
+            open(p, "w").write(_re.sub(r"\b%s\b" % _re.escape(old), new, s) if name.startswith("benign_rename") else s.replace(old, new, 1))
         if not ok:
             continue
         d = subprocess.run("git diff", shell=True, cwd=WT, stdout=subprocess.PIPE, text=True).stdout
